@@ -1,9 +1,13 @@
 #!/bin/bash
-# tools/sweep.sh <tier> <seed>... : run every check at the given seeds, print one line per run that is not "held"
+# tools/sweep.sh <tier> <seed>... : run every check at the given seeds, print one line per run ("ok ..." or "!! ...").
+# Works from wherever this copy of /verif lives (so it can run in a `vp run` snapshot): builds there, writes
+# out/ and evidence/ there (VERIF_ROOT), reads /repo.  ONLY="C04 C05" restricts the checks.
 tier="$1"; shift
-cd /verif && ./check build || exit 2
+ROOT="$(cd "$(dirname "$0")/.." && pwd)"
+cd "$ROOT" && ./check build || exit 2
+export VERIF_ROOT="$ROOT"
 for seed in "$@"; do
-  for id in $(./bin/vh list); do
+  for id in ${ONLY:-$(./bin/vh list)}; do
     out=$(VERIF_SEED=$seed ./bin/vh run "$id" "$tier" 2>&1); rc=$?
     line=$(echo "$out" | grep -E "seed=$seed:" | tail -1)
     if [ $rc -ne 0 ]; then echo "!! $id seed=$seed rc=$rc"; echo "$out" | head -12 | cut -c1-300; else echo "ok $line" | cut -c1-120; fi
